@@ -5,7 +5,7 @@ from vcheck import Case, hx, tokf, parse_vals
 PID = "C14"
 MODEL_DEPS = ["C13_Model.v"]
 RULE = ("non-trivial = a call on an anisotropic offset region (widths differing by > 10x or a lower corner away from the origin) in >= 2 dimensions, "
-        "or an observed call preceded by >= 2 calls of different dimension; distinct by case text")
+        "or an observed call preceded by >= 2 calls of different dimension, or by a history that contains an integration brought to an end by its integrand; distinct by case text")
 LEVEL_TEXT = ("Theorems (Coq, all inputs, over the reals, for every uniform stream with values in [0,1)): Random_Point stays in the hyper-rectangle; plain Monte Carlo and Miser "
               "evaluate the integrand only at points of the region (Miser's sub-regions are nested) and integrate a constant c to exactly V*c; the result of every integrator is a "
               "function of (arguments, stream) only: Miser's counter iran starts at 0 in every top-level call and plain MC has no state, and with init = 0 (the only value Integrate_MC "
@@ -15,10 +15,14 @@ LEVEL_TEXT = ("Theorems (Coq, all inputs, over the reals, for every uniform stre
               "NOT theorems: 'within six standard errors' (probabilistic) and Vegas' exactness on constants over all five iterations (later iterations run on a refined grid; holds to "
               "rounding only) — these are evaluated on the implementation with fixed seeds (S4). The Gallina model (all three integrators in full, including Vegas' five iterations with "
               "grid refinement) is extracted and run on the stream the library draws under the seed hook: results, numbers of evaluations and evaluation points agree bit for bit, and call "
-              "histories are replayed on both sides.")
+              "histories are replayed on both sides. Histories may contain integrations that their integrand brings to an end early (a C++ exception thrown from the n-th evaluation, caught by "
+              "the caller): the model function integrate_mc_throwing gives the statics such a call leaves behind; theorems: every call of a history, ended early or not, leaves well-formed statics "
+              "(C14_history_leaves_wf_statics), so the observed call after any history returns what it returns in a fresh process (C14_observed_call_forgets_history). On the implementation every "
+              "observed call of a history case is run three times: in a process forked from an image that has never called the library (fresh statics), in the worker before the history and after it.")
 LEVEL_NOTE = ("Coq 8.16.1 kernel; theorems over R use the standard library's real-number axioms (listed in the evidence); std::mt19937 + uniform_real_distribution are modelled as an abstract "
               "stream us : Z -> R with 0 <= us k < 1 (the OCaml driver reimplements MT19937/generate_canonical and is compared with the library's generator on every run); Vegas' work arrays "
-              "that are written before being read (d, kg, ia, x, dt, r, xin) are created afresh in the model at the size in use, a read outside that part being the outcome OOB; di (print-only) "
+              "that are written before being read (d, kg, ia, x, dt, r, xin) are created afresh in the model at the size in use, a read outside that part being the outcome OOB (this is also what the "
+              "model of a call brought to an end by its integrand relies on: of the iteration under way only such statics have been touched; histories with such calls test it); di (print-only) "
               "and Miser's var (does not influence the result) are not modelled; hook: verif::mc_seed (LIBPHYSICA_VERIF)")
 TOL = (1e-11, 1e-300)
 TRUSTED = ["std::mt19937 / std::uniform_real_distribution<double>(0,1) (libstdc++ generate_canonical): modelled as an abstract stream; reimplemented in ocaml/C14_driver.ml and compared with the library's draws (op stream)",
@@ -108,10 +112,56 @@ def rand_region(rng, d, plain=False):
     return lo + hi
 
 
-def call_text(method, seed, ncall, region, fam):
+def call_text(method, seed, ncall, region, fam, throw_at=0):
     d = len(region) // 2
-    return f"{method} {seed} {ncall} {d} " + " ".join(hx(x) for x in region) + " " + fam.text(region)
+    return f"{method}{'!' + str(throw_at) if throw_at else ''} {seed} {ncall} {d} " + " ".join(hx(x) for x in region) + " " + fam.text(region)
 
+
+
+# ---------------------------------------------------------------- call budgets
+def vegas_layout(ncall, d):
+    """(ng, npg, nd, evaluations per iteration) of Integrate_MC_Vegas for this budget and dimension (Integration.cpp, the init <= 2 block)"""
+    ng = int((ncall / 2.0 + 0.25) ** (1.0 / d)); nd = 50
+    if 2 * ng - 50 >= 0:
+        npg = ng // 50 + 1; nd = ng // npg; ng = npg * nd
+    k = ng ** d
+    npg = max(ncall // k, 2)
+    return ng, npg, nd, npg * k
+
+
+def structured_budget(rng, lo, hi, d=None):
+    """a call budget in [lo, hi] with arithmetic structure: powers of two and their neighbours, multiples of round binary and decimal
+    block sizes, powers of ten and their neighbours, the budgets 2 m^d at which Vegas' number of strata ng = int(pow(ncall/2 + 0.25, 1/d))
+    steps, or log-uniform"""
+    for _ in range(50):
+        kind = rng.choice(["pow2", "pow2", "pow2pm", "mult", "mult", "mult", "dec", "strata", "log"])
+        if kind == "pow2": n = 2 ** rng.randint(10, 20)
+        elif kind == "pow2pm": n = 2 ** rng.randint(10, 20) + rng.choice([-1, 1])
+        elif kind == "mult":
+            b = rng.choice([1000, 1024, 2048, 4096, 8192, 8192, 10000, 16384, 32768, 65536, 100000])
+            n = b * rng.randint(1, max(1, hi // b)) + rng.choice([0, 0, 0, 0, -1, 1])
+        elif kind == "dec": n = 10 ** rng.randint(3, 6) + rng.choice([0, 0, -1, 1])
+        elif kind == "strata":
+            dd = d or rng.randint(1, 6)
+            m = max(2, int((rng.uniform(lo, hi) / 2.0) ** (1.0 / dd)))
+            n = 2 * m ** dd + rng.choice([-1, 0, 0, 1])
+        else: n = int(10 ** rng.uniform(math.log10(lo), math.log10(hi)))
+        if lo <= n <= hi: return n
+    return lo
+
+
+def throw_positions(rng, method, ncall, d):
+    """evaluation numbers at which an integrand may give up: the first, within the first cell / the first points, in the middle of a sweep,
+    the last evaluation of an iteration and the first of the next, the very last evaluation, and one beyond it (the call then runs to its end)"""
+    if method == "Vegas":
+        ng, npg, nd, per = vegas_layout(ncall, d)
+        total = 5 * per
+        pos = [1, 2, npg, npg + 1, rng.randint(1, per), rng.randint(1, per), per, per + 1, rng.randint(per + 1, total), rng.randint(per + 1, total),
+               2 * per + npg * rng.randint(0, max(0, per // npg - 1)) + 1, total - 1, total, total + 1]
+    else:
+        total = ncall
+        pos = [1, 2, 15, 16, rng.randint(1, total), rng.randint(1, total), rng.randint(1, total), total // 10, total // 10 + 1, total - 1, total, total + 1]
+    return [n for n in pos if n >= 1]
 
 # ---------------------------------------------------------------- generator
 def generate(rng, tier):
@@ -157,20 +207,78 @@ def generate(rng, tier):
     for m in ("vegas", "MC", "Gauss-Legendre", "Foo"):
         region = rand_region(rng, 2); fam = rand_fam(rng, 2, "const")
         cs.append(Case("mc " + call_text(m, 1, 1000, region, fam) + " # " + fam.ann(), ("mc", "unknown-method")))
-    # histories: integrations of differing dimension / region / budget / method before the observed call
-    for _ in range(150 if big else 45):
-        nh = rng.choice([1, 2, 3, 4, 6])
+    # the whole range of call budgets, with arithmetic structure (block sizes, strata steps): every power of two, and a random selection
+    caps = {"Monte-Carlo": (70000, 1000000), "Miser": (70000, 1000000), "Vegas": (17000, 200000)}
+    for method in MC:
+        cap = caps[method][1 if big else 0]
+        ladder = [2 ** k for k in range(10, 21) if 2 ** k <= cap]
+        for ncall in ladder:
+            for kind in ("const", rng.choice(["sepexp", "gauss", "poly"])):
+                if kind != "const" and ncall > 20000 and not big and (method == "Miser" or ncall > 40000): continue
+                d = rng.choice([1, 2, 3]) if ncall > 5000 else rng.randint(1, 6)
+                region = rand_region(rng, d); fam = rand_fam(rng, d, kind)
+                cs.append(Case("mc " + call_text(method, rng.randrange(2 ** 32), ncall, region, fam) + " # " + fam.ann(), ("mc", method, "budget-pow2", kind)))
+        for _ in range(40 if big else 8):
+            d = rng.choice([1, 2, 3, 4, 6])
+            ncall = structured_budget(rng, 1000, cap if big else cap // 2, d)
+            if not big and ncall > 20000: d = rng.choice([1, 2])
+            kind = rng.choice(["const", "const", "sepexp", "gauss", "poly"])
+            region = rand_region(rng, d); fam = rand_fam(rng, d, kind)
+            cs.append(Case("mc " + call_text(method, rng.randrange(2 ** 32), ncall, region, fam) + " # " + fam.ann(), ("mc", method, "budget-structured", kind)))
+    # integrations brought to an end by their integrand (it throws from its n-th evaluation; the caller catches): points seen until then, no crash
+    for rep in range(4 if big else 1):
+        for method in MC:
+            d = rng.randint(1, 4); ncall = rng.choice([1000, 1500, 2000, 3000])
+            for n in throw_positions(rng, method, ncall, d):
+                region = rand_region(rng, d); fam = rand_fam(rng, d, rng.choice(["const", "sepexp", "gauss", "poly"]))
+                cs.append(Case("mc " + call_text(method, rng.randrange(2 ** 32), ncall, region, fam, throw_at=n) + " # " + fam.ann(), ("mc", method, "throwing")))
+    # histories: integrations of differing dimension / region / budget / method before the observed call; some of them brought to an end early by
+    # their integrand; some with the region and budget of the observed call (another integrand, seed, method); the observed call on its own twice (nh = 0)
+    nlong = 16 if big else 4          # long histories of small integrations
+    for ih in range(200 if big else 64):
+        nh = rng.choice([0, 1, 1, 2, 2, 3, 4, 6]) if ih >= nlong else rng.randint(9, 16)
+        with_throw = nh > 0 and rng.random() < 0.6
+        obs_method = MC[len(cs) % 3]
         calls = []
         for k in range(nh + 1):
             d = rng.randint(1, 6)
             method = rng.choice(MC)
-            if k == nh: method = MC[len(cs) % 3]
+            if k == nh: method = obs_method
             # integrands with flat parts: for Miser that is where iran decides the split dimension
-            kind = rng.choice(["sepexp", "gauss", "poly", "corner", "corner"]) if d >= 2 else rng.choice(["sepexp", "gauss", "poly"])
+            kind = rng.choice(["sepexp", "gauss", "poly", "corner", "corner", "const"]) if d >= 2 else rng.choice(["sepexp", "gauss", "poly", "const"])
+            # the observed call has to be able to show a difference: no integrand that vanishes on (almost) all of the region, except for Miser in few dimensions
+            if k == nh and kind == "corner" and not (method == "Miser" and d <= 3): kind = rng.choice(["sepexp", "gauss", "poly", "const"])
             region = rand_region(rng, d, plain=(kind == "corner" and rng.random() < 0.5)); fam = rand_fam(rng, d, kind)
-            calls.append((d, call_text(method, rng.randrange(2 ** 32), rng.choice([300, 700, 1000, 2000]), region, fam)))
-        dims = {d for d, _ in calls[:-1]}
-        cs.append(Case(f"hist {nh} " + " ".join(t for _, t in calls), ("hist", calls[-1][1].split()[0], "mixed-dims" if len(dims) >= 2 else "same-dim")))
+            ncall = rng.choice([300, 700, 1000, 2000]) if rng.random() < 0.7 else structured_budget(rng, 200, 4500, d)
+            if ih < nlong and k < nh: ncall = rng.choice([60, 100, 128, 200, 300, 500])
+            calls.append([d, method, rng.randrange(2 ** 32), ncall, region, fam, 0])
+        obs = calls[-1]
+        for h in calls[:-1]:
+            # a history call on the observed call's region (and budget)
+            if rng.random() < 0.2:
+                h[0], h[4] = obs[0], list(obs[4])
+                h[5] = rand_fam(rng, obs[0], rng.choice(["sepexp", "gauss", "poly"]))
+                if rng.random() < 0.7: h[3] = obs[3]
+                if rng.random() < 0.5: h[1] = obs[1]
+        if with_throw:
+            # which history calls give up: often the last one, or the last one of the observed call's method
+            idx = set()
+            if rng.random() < 0.4: idx.add(nh - 1)
+            if rng.random() < 0.65:
+                if rng.random() < 0.6: calls[rng.randrange(nh)][1] = obs_method
+                same = [k for k in range(nh) if calls[k][1] == obs_method]
+                if same: idx.add(same[-1])
+            for k in range(nh):
+                if rng.random() < 0.3: idx.add(k)
+            if not idx: idx.add(rng.randrange(nh))
+            for k in idx:
+                calls[k][6] = rng.choice(throw_positions(rng, calls[k][1], calls[k][3], calls[k][0]))
+        texts = [call_text(m, sd, nc, rg, fm, throw_at=n) for (d, m, sd, nc, rg, fm, n) in calls]
+        dims = {c[0] for c in calls[:-1]}
+        tags = ["hist", obs_method, "mixed-dims" if len(dims) >= 2 else "same-dim"]
+        if with_throw: tags.append("with-throwing-call")
+        if nh == 0: tags.append("repeated")
+        cs.append(Case(f"hist {nh} " + " ".join(texts), tuple(tags)))
     # the 2-D / 3-D front ends: anisotropic offset regions, asymmetric integrand
     for _ in range(12 if big else 4):
         for method in MC:
@@ -180,7 +288,8 @@ def generate(rng, tier):
                 lo = [base[j] + rng.uniform(0, 0.5) for j in range(d)]; w = [rng.uniform(0.5, 1.5) * (1, 0.3, 10)[j] for j in range(d)]
                 region = lo + [a + b for a, b in zip(lo, w)]
                 fam = rand_fam(rng, d, rng.choice(["sepexp", "gauss", "poly"]))
-                p = rng.choice([0, 1000, 2000]) if not (method == "Vegas" and big) else rng.choice([0, 2000])
+                p = rng.choice([0, 1000, 2000, 4096, 8192]) if not (method == "Vegas" and big) else rng.choice([0, 2000, 4096])
+                if big and method != "Vegas" and rng.random() < 0.5: p = structured_budget(rng, 1000, 300000, d)
                 lims = " ".join(f"{hx(region[j])} {hx(region[j + d])}" for j in range(d))
                 txt = fam.text(region).replace("v 0", "x").replace("v 1", "y").replace("v 2", "z")
                 cs.append(Case(f"{op} {method} {rng.randrange(2 ** 32)} {p} {lims} {txt} # {fam.ann()}", (op, method)))
@@ -194,6 +303,12 @@ def parse_mc(line):
     method, seed, ncall, d = t[1], int(t[2]), int(t[3]), int(t[4])
     region = [float.fromhex(x) for x in t[5:5 + 2 * d]]
     return method, seed, ncall, d, region, " ".join(t[5 + 2 * d:]), (parse_fam(ann.split()) if ann else None)
+
+
+def split_throw(method):
+    """'Vegas!120' -> ('Vegas', 120); 0 = the integrand never throws"""
+    m, _, n = method.partition("!")
+    return m, (int(n) if n else 0)
 
 
 def parse_front(line):
@@ -215,20 +330,26 @@ def nontrivial(c, io):
     op = c.line.split()[0]
     if op == "mc": return aniso(parse_mc(c.line)[4]) and not io.startswith("EXIT")
     if op in ("front2d", "front3d"): return aniso(parse_front(c.line)[4])
-    if op == "hist": return int(c.line.split()[1]) >= 2 and "mixed-dims" in c.tags
+    if op == "hist":
+        t = io.split()
+        return (int(c.line.split()[1]) >= 2 and "mixed-dims" in c.tags) or (len(t) == 4 and t[3].isdigit() and int(t[3]) >= 1)
     return False
 
 
 # ---------------------------------------------------------------- S4
-def check_call(op, method, ncall, d, region, fex, fam, v, out):
+def check_call(op, method, ncall, d, region, fex, fam, v, out, ended_early=False):
     val, neval = v[0], v[1]; mm = v[3:]
     # evaluation points inside the hyper-rectangle
     for j in range(d):
         lo, hi = min(region[j], region[j + d]), max(region[j], region[j + d])
         if neval > 0 and not (lo <= mm[2 * j] and mm[2 * j + 1] <= hi):
             out.append((f"{op}:points-inside", f"{method}: coordinate {j} of the evaluation points ranged over [{mm[2*j]!r},{mm[2*j+1]!r}], outside its limits [{lo!r},{hi!r}]"))
+    if ended_early: return
     if method in ("Monte-Carlo", "Miser") and neval != ncall:
         out.append((f"{op}:budget", f"{method} evaluated the integrand {neval} times for a budget of {ncall}"))
+    if method == "Vegas" and neval > 5 * max(ncall, 2 * 2 ** d):
+        # npg = max(ncall / ng^d, 2) points in each of ng^d <= ncall / 2 cells (ng^d = 1 when ncall < 2^(d+1)), five iterations
+        out.append((f"{op}:budget", f"{method} evaluated the integrand {neval} times for a budget of {ncall} per iteration (5 iterations)"))
     if fam is None: return
     txt = fam.text(region)
     if op != "mc": txt = txt.replace("v 0", "x").replace("v 1", "y").replace("v 2", "z")
@@ -259,11 +380,21 @@ def predicates(c, io):
         return out
     if op == "mc":
         method, seed, ncall, d, region, fex, fam = parse_mc(c.line)
+        method, n = split_throw(method)
         if method not in MC:
             if not io.startswith("EXIT"): out.append(("mc:unknown-method", f"unknown method {method} was accepted"))
             return out
         if io.startswith("EXIT"): return [("mc:exit", f"{method} terminated the process on a valid request")]
-        check_call(op, method, ncall, d, region, fex, fam, parse_vals(io), out)
+        if io.startswith("ABORTED"):
+            # the integrand threw from its n-th evaluation and the exception reached the caller: n evaluations, all inside the region
+            v = [math.nan] + parse_vals(io.split(None, 1)[1])
+            if n == 0 or v[1] != n: out.append(("mc:exception", f"{method}: the integrand throws from evaluation {n}; the harness caught an exception after {v[1]} evaluations"))
+            check_call(op, method, ncall, d, region, fex, fam, v, out, ended_early=True)
+        else:
+            v = parse_vals(io)
+            if n and v[1] >= n: out.append(("mc:exception", f"{method}: the integrand threw from evaluation {n}, but the call returned {v[0]!r} after {v[1]} evaluations"))
+            if n and method in ("Monte-Carlo", "Miser") and n <= ncall: out.append(("mc:exception", f"{method}: evaluation {n} of {ncall} was never made"))
+            check_call(op, method, ncall, d, region, fex, fam, v, out)
     elif op in ("front2d", "front3d"):
         method, seed, p, d, region, fex, fam = parse_front(c.line)
         if io.startswith("EXIT"): return [(op + ":exit", f"{method} terminated the process on a valid request")]
@@ -271,6 +402,12 @@ def predicates(c, io):
     elif op == "hist":
         if io.startswith("EXIT"): return [("hist:exit", "a valid sequence of integrations terminated the process")]
         t = io.split()
-        if len(t) != 2 or t[0] != t[1]:
-            out.append(("hist:history-dependence", f"same call, same seed: {t[0]} on its own but {t[1] if len(t) > 1 else '?'} after {c.line.split()[1]} other integrations"))
+        if len(t) != 4: return [("hist:output", f"malformed harness output {io[:80]!r}")]
+        fresh, a, b, nab = t
+        nh = int(c.line.split()[1])
+        what = f"{nh} other integrations" + (f" ({nab} of them brought to an end by an exception from the integrand)" if nab != "0" else "")
+        if a != b:
+            out.append(("hist:history-dependence", f"same call, same seed: {a} before but {b} after {what}"))
+        if fresh != b:
+            out.append(("hist:history-dependence:fresh-process", f"same call, same seed: {fresh} in a fresh process but {b} in this process after {what} (and {a} before them, after the earlier cases of this run)"))
     return out
